@@ -15,13 +15,12 @@ def run(ctx, proofs):
     r = propeng.run(ctx, proofs, BUDGETS, check_vals=True, check_degs=True,
                     n_quick=350, n_thorough=5000, props=("C06", "C07", "C20"))
     propeng.verdict(ctx, proofs, r, kinds=("value", "degree", "finding", None),
-                    known_classes=("ctl-merge",),
+                    known_classes=(),
                     extra_cov={"budgets": BUDGETS,
                                "open_statements": ["the universal budget theorems (C20_mirror_validated_at_every_budget for value claims, "
                                                    "C20_degrees_validated_at_every_budget / C20_propagate_degrees_validated_at_every_budget for degree "
                                                    "ranges) are about the mirror Model.Propagate, which is compared with the implementation pass by pass on "
-                                                   "every explored definition; joins under signal-dependent control are outside the degree semantics "
-                                                   "(known finding C20-ctl-merge)"]})
+                                                   "every explored definition"]})
 
 
 def replay(ctx, rep):
